@@ -607,6 +607,44 @@ def rule_puller(model):
                           'iterable that is materialised here is pulled to '
                           'its end before the first batch is shown',
                           node=x, ctx=ens)
+    # the buffer of the lazy wrapper is handed out by the element reader
+    # only (after pulling up to the index asked for): no other method reads
+    # `self.data`, and no code anywhere materialises an object it has just
+    # recognised as the wrapper
+    W = model.cls('DT_Util', 'SequenceFromIter')
+    for mname, m_ in W.methods.items():
+        if mname in ('__init__', '__getitem__', '__len__'):
+            continue
+        for x in own_nodes(m_.node):
+            if isinstance(x, ast.Attribute) and x.attr == 'data' and \
+                    norm(x.value) == 'self' and isinstance(x.ctx, ast.Load):
+                r.instance(m_.where, x, 'BUFFER READ OUTSIDE THE READER')
+                r.finding(m_.where, x, f'{mname}() reads the buffer of the '
+                          'lazy wrapper directly: it sees only the elements '
+                          'pulled so far (statistics, sorting and '
+                          'iteration over a batched iterator cover the '
+                          'first batch only)', node=x, ctx=m_)
+    for f in model.all_funcs():
+        if f.cls is W:
+            continue
+        tested = set()
+        for x in own_nodes(f.node):
+            if isinstance(x, ast.Call) and norm(x.func) == 'isinstance' \
+                    and len(x.args) == 2 and \
+                    'SequenceFromIter' in norm(x.args[1]) and \
+                    isinstance(x.args[0], ast.Name):
+                tested.add(x.args[0].id)
+        for x in own_nodes(f.node):
+            if tested and isinstance(x, ast.Call) and isinstance(
+                    x.func, ast.Name) and x.func.id in (
+                    'list', 'tuple', 'sorted', 'len', 'set') and x.args \
+                    and isinstance(x.args[0], ast.Name) and \
+                    x.args[0].id in tested:
+                r.instance(f.where, x, 'WRAPPER MATERIALISED')
+                r.finding(f.where, x, f'`{norm(x)}` on an object just '
+                          'recognised as the lazy wrapper pulls the '
+                          'wrapped iterator to its end (and never returns '
+                          'for an unbounded one)', node=x, ctx=f)
     if not wrapped:
         r.finding(ens.where, ens.node.body[-1], 'non-subscriptable '
                   'iterables are not wrapped lazily', node=ens.node,
